@@ -580,3 +580,68 @@ let () =
             hex_of_bytes bytes ^ " " ^ String.concat "," (List.map (fmt_dt_obs false) obs))
        | _, _ -> "init-failed")
     | _ -> "badargs")
+
+(* ---- WRANGE: range coding helpers (Prefix/Range.v) ---- *)
+let wr_parse_rcs (s : string) : (n * n) list =
+  if s = "-" then [] else
+  List.map (fun x -> match colon x with
+    | [b; l] -> (n_of_string b, n_of_string l) | _ -> failwith "rcs") (String.split_on_char ',' s)
+let wr_fmt_rcs (l : (n * n) list) : string =
+  if l = [] then "-" else
+  String.concat "," (List.map (fun (b, l) -> n_to_string b ^ ":" ^ n_to_string l) l)
+let wr_ns (s : string) : n list =
+  if s = "-" then [] else List.map n_of_string (String.split_on_char ',' s)
+let wr_res (r : n rres) : string = match r with
+  | RgOk s -> n_to_string s | RgPanic -> "P" | RgFuel -> "F"
+
+(* run-length "value x count" *)
+let wr_rle (next : unit -> string option) : string =
+  let b = Buffer.create 256 in
+  let cur = ref "" and cnt = ref 0 and some = ref false in
+  let flush () =
+    if !cnt > 0 then begin
+      if !some then Buffer.add_char b ',';
+      Buffer.add_string b (Printf.sprintf "%sx%d" !cur !cnt); some := true end;
+    cnt := 0 in
+  let rec go () = match next () with
+    | None -> ()
+    | Some s -> (if !cnt > 0 && s = !cur then incr cnt else begin flush (); cur := s; cnt := 1 end); go () in
+  go (); flush ();
+  if !some then Buffer.contents b else "-"
+
+let () =
+  register "wrmk" (fun args -> match args with
+    | [mb; bits] -> wr_fmt_rcs (make_range_codes (n_of_string mb) (wr_ns bits))
+    | _ -> "badargs");
+  register "wrange" (fun args -> match args with
+    | [rcs; ood; wofs] ->
+      let rcs = wr_parse_rcs rcs in
+      if not (check_valid rcs) then
+        "invalid init=" ^ (match re_init rcs with RgOk _ -> "ok" | RgPanic -> "panic" | RgFuel -> "fuel")
+      else (match re_init rcs, rcs_base rcs, rcs_end rcs with
+        | RgOk re, RgOk lo, RgOk hi ->
+          let lut = ref (lut_dump re.re_lut) in
+          let lut_s = wr_rle (fun () -> match !lut with
+            | [] -> None | x :: r -> lut := r; Some (n_to_string x)) in
+          let lo_i = int_of_n lo and hi_i = int_of_n hi in
+          let off = ref lo_i in
+          let enc_s = wr_rle (fun () ->
+            if !off < hi_i then begin
+              let s = wr_res (re_encode re (n_of_int !off)) in incr off; Some s end
+            else None) in
+          let ood_s = String.concat "," ("-" :: List.map (fun o -> wr_res (re_encode re o)) (wr_ns ood)) in
+          let woo_s = String.concat "," ("-" :: List.map (fun o ->
+            match write_offset re o with
+            | RgOk ((_, _), nb) -> n_to_string nb
+            | RgPanic -> "P" | RgFuel -> "F") (wr_ns ood)) in
+          let wr_s = String.concat "," ("-" :: List.map (fun o ->
+            match write_offset re o with
+            | RgOk ((s, v), nb) ->
+              Printf.sprintf "%s:%s:%s:%s" (n_to_string s) (n_to_string v) (n_to_string nb)
+                (wr_res (read_offset rcs s (fun _ -> v)))
+            | RgPanic -> "P" | RgFuel -> "F") (wr_ns wofs)) in
+          Printf.sprintf "valid base=%s end=%s min=%s lut=%s enc=%s ood=%s woo=%s wr=%s"
+            (n_to_string lo) (n_to_string hi) (n_to_string re.re_minBase) lut_s enc_s ood_s woo_s wr_s
+        | RgPanic, _, _ -> "valid init=panic"
+        | _, _, _ -> "valid init=other")
+    | _ -> "badargs")
